@@ -15,6 +15,7 @@ pub mod report;
 pub mod proc;
 pub mod c08;
 pub mod c08b;
+pub mod cycle;
 
 use report::{Evidence, Violation};
 
@@ -67,6 +68,8 @@ fn cmd_check(args: &[String]) -> i32 {
     println!("fmlsim: property={} tier={} VERIF_SEED={} workers={}", id, tier, seed, util::workers());
     match id.as_str() {
         "C08" => check_c08(seed, tier),
+        "C03" => check_cycle(cycle::Which::C03, seed, tier),
+        "C04" => check_cycle(cycle::Which::C04, seed, tier),
         other => {
             eprintln!("HARNESS-ERROR no check for property {}", other);
             2
@@ -99,6 +102,27 @@ fn check_c08(seed: u64, tier: &str) -> i32 {
     report::finish(ev, violations)
 }
 
+fn check_cycle(which: cycle::Which, seed: u64, tier: &str) -> i32 {
+    let rule = match which {
+        cycle::Which::C03 =>
+            "save/load cycles: a Program (compiler output from generated and corpus sources, corpus images, directly built structurally valid models)              is serialized by the real serializer through a sink stack under a transient-only write plan onto the simulated disk, loaded by the real              loader through a simulated source under a chunking/EINTR read plan (raw and through BufReader), saved again and, where it is a program,              executed before and after. Non-trivial = a write fault or a read cut/EINTR actually fired during the cycle; distinct = distinct              (image digest, writer, write stack, write plan, read stack, read plan).",
+        cycle::Which::C04 =>
+            "exchange cycles with a simulated foreign implementation of the documented layout (independent encoder + strict decoder): (a) every image              FML emits is decoded by the foreign node and must denote the same program with no trailing bytes; (b) every image the foreign node writes              is loaded by FML under a chunking/EINTR read plan, must denote the same program and re-save byte-identically. Non-trivial = a write fault              or a read cut/EINTR actually fired during the cycle; distinct = distinct (image digest, writer, stacks, plans).",
+    };
+    let mut ev = Evidence::new(which.id(), tier, seed, "exploration", rule);
+    ev.assumptions = vec![
+        "the foreign codec in harness/foreign.rs is a faithful reading of the documented layout (it shares no code with FML's serializer)".into(),
+        "behaviour on corrupted or truncated images is not decided (no property states it)".into(),
+        "the format-level model ignores code start addresses, which the property does not promise".into(),
+    ];
+    let violations = cycle::run_layer_a(which, seed, tier, &mut ev);
+    ev.extra.insert("components".into(), serde_json::json!({
+        "real": ["fml parser", "fml compiler", "Program::serialize", "Program::from_bytes", "Program::from (direct construction)", "per-opcode VM via step_with", "std BufWriter/LineWriter/BufReader", "FML NamedSink"],
+        "stub": ["SimFd / SimSource (simulated disk endpoints under explicit fault plans)", "foreign encoder/decoder (the other party)"],
+    }));
+    report::finish(ev, violations)
+}
+
 fn cmd_replay(args: &[String]) -> i32 {
     let path = match args.first() {
         Some(p) => p,
@@ -126,6 +150,7 @@ fn cmd_replay(args: &[String]) -> i32 {
     let engine = replay.get("engine").and_then(|e| e.as_str()).unwrap_or("");
     let result = match engine {
         c08::ENGINE_A => c08::replay(&replay),
+        cycle::ENGINE => cycle::replay(&replay),
         c08b::ENGINE_B => { need_shim(); c08b::replay(&replay) }
         other => Err(format!("unknown engine `{}`", other)),
     };
